@@ -406,3 +406,12 @@ Definition search_by (g : graph) (s t : Z) (filt : list Z -> bool) (fall_back : 
 Definition edge_weight (is_fibre : bool) (length_cm : Z) : Z := if is_fibre then length_cm else 1.
 (* find_reversed_path: the elements whose OMS is collected *)
 Definition rev_keeps (n : net) (el : Z) : bool := negb (is_trx n el) && negb (is_roadm n el).
+
+(* clean_route above removes the own source listed first with `tl` on both lists (= pop(0), pop(0)) and the own destination
+   listed last with `removelast` on both (= pop(-1), pop(-1)): the positions, in the order loose_list / nodes_list *)
+Definition clean_pops : list Z := [0; 0; -1; -1].
+(* what makes two requests twins for requests_aggregation, besides their groups: plain equality of these attributes
+   (in particular nodes_list and loose_list as ORDERED lists) = the signature the harness gives a request *)
+Definition twin_attrs : list string :=
+  ["source"; "destination"; "bidir"; "tsp"; "tsp_mode"; "baud_rate"; "nodes_list"; "loose_list"; "spacing"; "power";
+   "nb_channel"; "f_min"; "f_max"; "format"; "OSNR"; "roll_off"; "tx_power"]%string.
